@@ -64,3 +64,18 @@ Proof.
   intros. unfold section_load. cbn [dFi irho p']. destruct (vcross v (cdl c)). rcompute. apply V3_eq; ring.
 Qed.
 Print Assumptions C05_density_scaling.
+
+(* ---------------------------------------------------------------------------------------------------------------------------------
+   The part of H_geom_scale that concerns the general (Reid-Hunsaker) corrections is a theorem: when every length of the wing data
+   (control points, nodes, span coordinates, chords) is multiplied by k and the blending parameter - which the code computes from
+   the semispan - is divided by k^2, the effective lifting lines and the joints seen by every control point are the scaled ones.
+   (Model/Reid.v is tied to airplane.py's arrays by the C12 correspondence.) *)
+From MuxV Require Import Model.Reid Proofs.ReidP.
+Theorem C05_effective_lines_scale : forall k, 0 < k -> forall (w : list (sec R)) (i : sec R),
+  reid_row exp (map (sec_scale k) w) (sec_scale k i) = scale4 k (reid_row exp w i).
+Proof. exact reid_row_scale. Qed.
+Print Assumptions C05_effective_lines_scale.
+Theorem C05_blending_parameter_scales : forall k, 0 < k -> forall b bd cs,
+  sigma_blend (k * b) bd cs = sigma_blend b bd cs / (k * k).
+Proof. exact sigma_blend_scale. Qed.
+Print Assumptions C05_blending_parameter_scales.
